@@ -14,6 +14,7 @@ mod c13;
 mod npy;
 mod cli;
 mod io;
+mod stat;
 
 use std::io::{BufRead, Write};
 
@@ -40,6 +41,7 @@ fn eval_line(ctx: &Ctx, line: &str) -> String {
             "c03" => c03::eval(&opn, &a),
             "c13" => c13::eval(*ctxp, &opn, &a),
             "io" => io::eval(*ctxp, &opn, &a),
+            "st" => stat::eval(*ctxp, &opn, &a),
             p @ ("c01" | "c02" | "c08" | "c09" | "c10" | "c11" | "c12") => {
                 let _ = p;
                 if opn.ends_with(".mem") { create::eval_mem(&a) }
@@ -101,6 +103,8 @@ fn main() {
                 "c12" => creategen::gen_c12(&ctx, &mut rng, &mut reqs),
                 "c03" => c03::gen(&ctx, &mut rng, &mut reqs),
                 "c13" => c13::gen(&ctx, &mut rng, &mut reqs),
+                "c06" => stat::gen_c06(&ctx, &mut rng, &mut reqs),
+                "c14" => stat::gen_c14(&ctx, &mut rng, &mut reqs),
                 "c07" => io::gen_c07(&ctx, &mut rng, &mut reqs),
                 "c15" => io::gen_c15(&ctx, &mut rng, &mut reqs),
                 "c16" => io::gen_c16(&ctx, &mut rng, &mut reqs),
